@@ -4,8 +4,8 @@
    edges from definitions/constants that are nodes of the module); export h is the model of
    Hugr.to_model() (link names = component representatives, symbols = defining node). *)
 From Coq Require Import ZArith List Bool.
-From HV Require Import model.Export spec.ExportS spec.ModelAttrsS gen.ModelAttrs proofs.ExportP proofs.ModelAttrsP
-  proofs.ExportOrderP.
+From HV Require Import model.Export model.ExportNum spec.ExportS spec.ModelAttrsS gen.ModelAttrs proofs.ExportP
+  proofs.ModelAttrsP proofs.ExportOrderP proofs.ExportNumP.
 
 (* the union-find labelling names two ports alike exactly when the links join them *)
 Theorem C12_components : forall ls p q, rep ls p = rep ls q <-> conn ls p q.
@@ -101,6 +101,34 @@ Theorem C12_link_names_monitor_complete :
     link_names_iff_connected leqb h m -> link_names_iff_connected_b leqb h m = true.
 Proof. exact @link_names_b_complete. Qed.
 Print Assumptions C12_link_names_monitor_complete.
+
+(* first-use numbering of link names (model/ExportNum.v: link_name = dict of roots in insertion order,
+   visits = the calls of a successful export in the order of the code, num = the name of a port).
+   The name returned at every call is num of the port ... *)
+Theorem C12_first_use_names :
+  forall h, fst (link_names (rep (h_links h)) nil (visits h)) = List.map (num h) (visits h).
+Proof. exact names_given_are_num. Qed.
+Print Assumptions C12_first_use_names.
+
+(* ... and on the ports a valid export lists the numbers are a renaming of the link components *)
+Theorem C12_first_use_numbering_is_renaming :
+  forall h, valid_b h = true ->
+  forall p q, List.In p (listed_ports h) -> List.In q (listed_ports h) ->
+              (num h p = num h q <-> conn (h_links h) p q).
+Proof. exact num_listed. Qed.
+Print Assumptions C12_first_use_numbering_is_renaming.
+
+(* so the numbered export satisfies the link-name clause, and with it every clause the monitor evaluates *)
+Theorem C12_numbered_link_names_iff_connected :
+  forall h, valid_b h = true -> link_names_iff_connected Nat.eqb h (export_numbered h).
+Proof. exact numbered_link_names_iff_connected. Qed.
+Print Assumptions C12_numbered_link_names_iff_connected.
+
+Theorem C12_numbered_export_meets_spec :
+  forall h, valid_b h = true -> valid_order_b h = true -> order_ports_b h = true -> stars_b h = true ->
+            spec_b Nat.eqb Z.eqb h (export_numbered h) = true.
+Proof. exact numbered_spec. Qed.
+Print Assumptions C12_numbered_export_meets_spec.
 
 Theorem C12_metadata_carried :
   forall h, valid_b h = true -> metadata_carried h (export h) = true.
